@@ -4,7 +4,14 @@ Caches with inline and file-backed items (Cache, and the shards of a FanoutCache
 library's back by every subset (thorough) / a seeded sample (quick) of
   {delete a value file, truncate one, extend one, add a file at depth 0 / 1 / 2, add an empty directory at
    depth 1 / 2, bump Settings.count, bump Settings.size}
-(added files and directories go to fresh or to existing directories, chosen per case).
+(added files and directories go to fresh or to existing directories, chosen per case).  Further families:
+  * FanoutCache with 8 shards and the FanoutCache behind a DjangoCache (SHARDS=8, items written and read through the Django API)
+    whose 11 items leave some shards without any item: added files / directories / counter changes are placed in a shard that
+    holds NO item (variant home='empty') as well as in shards that do;
+  * Settings.count / Settings.size zeroed out of band (variant sign='zero') on every cache kind;
+  * caches with more than one page of 100 file-backed rows per cache / shard ('cache:150', 'cache:230', 'fanout:260'; thorough
+    also 101, 201, 330): value files deleted in early pages (1-12 of them), deleted / truncated / extended in later ones
+    (variant targets=[[kind, item], ...]), with or without the other damage kinds.
 
 MONITOR (from the property text; an oracle written here recomputes the inconsistencies from the table
 dump and the directory listing, independently of the Coq model):
@@ -46,6 +53,7 @@ ASSUMPTIONS = [
     'directory tree of depth <= 2 below the cache directory (the layout Disk.filename produces), no symbolic links',
     'readable = the row resolves to a file of the recorded size; check() compares sizes only, so a truncated pickle or UTF-8 file stays undecodable after the repair (the harness truncates/extends raw binary and ASCII text files, whose every prefix/extension decodes)',
     'no concurrent writer while check() runs',
+    'DjangoCache has no check() of its own: the DjangoCache-backed cases call check() of the FanoutCache object it delegates every call to (DjangoCache._cache)',
 ]
 
 IMPORTS = ['DCPrelude', 'CheckBase', 'Gen_Check', 'Check']
@@ -68,20 +76,89 @@ WKIND = {1: 'wrong_size', 2: 'not_found', 3: 'unknown_file', 4: 'empty_dir', 5: 
 # building and observing
 
 
+# cache kinds: 'cache', 'fanout' (2 shards), 'fanout8' (8 shards: the 11 items leave some shards without any item),
+# 'django' (the FanoutCache a DjangoCache with SHARDS=8 stores its items in, written and read through the Django API),
+# 'cache:N' / 'fanout:N' (N file-backed items, more than one page of 100 rows per cache / shard, plus two inline ones)
+SPARSE = 8
+
+
+def kind_base(kind):
+    return kind.split(':')[0]
+
+
+def kind_shards(kind):
+    return {'cache': 0, 'fanout': 2, 'fanout8': SPARSE, 'django': SPARSE}[kind_base(kind)]
+
+
+def kind_items(kind):
+    if ':' not in kind:
+        return ITEMS
+    n = int(kind.split(':')[1])
+    # raw binary and ASCII text, whose every prefix / extension decodes (see ASSUMPTIONS)
+    return [('L%03d' % i, (b'B%03d' % i) * 10 if i % 2 else ('T%03d' % i) * 10) for i in range(n)] + [('s1', 7), ('s2', 'ab')]
+
+
+def anchor_key(kind):
+    """an item that is never damaged: added files / directories with placement 'old' go next to its value file"""
+    return 'fk' if ':' not in kind else kind_items(kind)[-3][0]
+
+
+class DjangoHandle:
+    """The cache behind a DjangoCache: items go through the Django API (versioned keys), check() is the check of the
+    FanoutCache that DjangoCache delegates every call to."""
+    MISSING = object()
+
+    def __init__(self, d):
+        from django.conf import settings
+        if not settings.configured:
+            settings.configure()
+        from diskcache.djangocache import DjangoCache
+        self.dj = DjangoCache(d, {'SHARDS': SPARSE, 'DATABASE_TIMEOUT': 60, 'OPTIONS': {'disk_min_file_size': MIN_FILE, 'eviction_policy': 'none'}})
+
+    def __setitem__(self, k, v):
+        self.dj.set(k, v, timeout=None)
+
+    def __getitem__(self, k):
+        v = self.dj.get(k, default=self.MISSING)
+        if v is self.MISSING:
+            raise KeyError(k)
+        return v
+
+    def __iter__(self):
+        return iter(self.dj._cache)
+
+    def check(self, fix=False):
+        return self.dj._cache.check(fix=fix)
+
+    def close(self):
+        self.dj.close()
+
+
 def open_cache(kind, d):
-    if kind == 'cache':
+    n = kind_shards(kind)
+    if kind == 'django':
+        return DjangoHandle(d)
+    if n == 0:
         return diskcache.Cache(d, disk_min_file_size=MIN_FILE, eviction_policy='none')
-    return diskcache.FanoutCache(d, shards=2, disk_min_file_size=MIN_FILE, eviction_policy='none')
+    return diskcache.FanoutCache(d, shards=n, disk_min_file_size=MIN_FILE, eviction_policy='none')
 
 
 def shard_dirs(kind, d):
-    return [d] if kind == 'cache' else [os.path.join(d, '%03d' % i) for i in range(2)]
+    n = kind_shards(kind)
+    return [d] if n == 0 else [os.path.join(d, '%03d' % i) for i in range(n)]
+
+
+def item_of_row(kind, rawkey):
+    """the item name a row key stands for (DjangoCache stores 'name' under ':1:name')"""
+    if kind == 'django' and isinstance(rawkey, str) and rawkey.startswith(':1:'):
+        return rawkey[3:]
+    return rawkey
 
 
 def build_template(ctx, kind):
     d = os.path.join(ctx.scratch('c17tmpl'), 'c')
     c = open_cache(kind, d)
-    for k, v in ITEMS:
+    for k, v in kind_items(kind):
         c[k] = v
     c.close()
     for sd in shard_dirs(kind, d):
@@ -127,7 +204,7 @@ def find_row(kind, d, key):
     for sd in shard_dirs(kind, d):
         con = sqlite3.connect(os.path.join(sd, 'cache.db'))
         try:
-            r = con.execute('SELECT filename FROM Cache WHERE key = ? AND raw = 1', (key,)).fetchall()
+            r = con.execute('SELECT filename FROM Cache WHERE key IN (?, ?) AND raw = 1', (key, ':1:' + key if kind == 'django' else key)).fetchall()
         finally:
             con.close()
         if r:
@@ -138,12 +215,19 @@ def find_row(kind, d, key):
 def apply_damage(kind, d, damage, variant):
     """damage: list of kinds; variant: dict kind -> 'new' | 'old' (placement of added files / directories)."""
     log = []
-    home, fk = find_row(kind, d, 'fk')          # the directory xx/yy of an undamaged item, for the 'old' placements
+    home, fk = find_row(kind, d, anchor_key(kind))          # the directory xx/yy of an undamaged item, for the 'old' placements
     xx = fk.split(os.sep)[0]
     yy = os.path.dirname(fk)
-    for k in damage:
+    if variant.get('home') == 'empty':
+        # added files, directories and counter changes go to a shard that holds no item at all (no 'old' placement there)
+        empty = [sd for sd in shard_dirs(kind, d) if not observe(sd)['rows']]
+        home = empty[variant.get('home_index', 0) % len(empty)]
+        variant = dict(variant, add1='new', add2='new', dir2='new')
+    todo = [(k, TARGET[k]) if k in TARGET else (k, None) for k in damage if ':' not in kind or k not in TARGET]
+    todo += [(k, key) for k, key in variant.get('targets', [])]
+    for k, tkey in todo:
         if k in TARGET:
-            sd, fn = find_row(kind, d, TARGET[k])
+            sd, fn = find_row(kind, d, tkey)
             p = os.path.join(sd, fn)
             if k == 'delete':
                 os.remove(p)
@@ -172,7 +256,10 @@ def apply_damage(kind, d, damage, variant):
         else:
             con = sqlite3.connect(os.path.join(home, 'cache.db'))
             sign = -1 if variant.get('sign') == 'down' else 1
-            con.execute('UPDATE Settings SET value = value + ? WHERE key = ?', (sign * (2 if k == 'count' else 1000), k))
+            if variant.get('sign') == 'zero':       # the counter zeroed behind the library's back
+                con.execute('UPDATE Settings SET value = 0 WHERE key = ?', (k,))
+            else:
+                con.execute('UPDATE Settings SET value = value + ? WHERE key = ?', (sign * (2 if k == 'count' else 1000), k))
             con.commit()
             con.close()
             log.append((k, os.path.relpath(home, d)))
@@ -280,7 +367,9 @@ def execute(kind, template, damage, variant, workdir):
     log = apply_damage(kind, d, damage, variant)
     sds = shard_dirs(kind, d)
     c = open_cache(kind, d)
-    rec = {'kind': kind, 'damage': list(damage), 'variant': dict(variant), 'log': log, 'dir': d}
+    rec = {'kind': kind, 'damage': list(damage), 'variant': dict(variant), 'log': log, 'dir': d, 'items': kind_items(kind)}
+    rec['targets'] = {TARGET[k]: k for k in damage if k in TARGET and ':' not in kind}
+    rec['targets'].update({key: k for k, key in variant.get('targets', [])})
     try:
         rec['obs0'] = [observe(sd) for sd in sds]
         rec['plain'] = parse_warnings(run_check(c, False), kind, d)
@@ -290,7 +379,7 @@ def execute(kind, template, damage, variant, workdir):
         rec['second'] = parse_warnings(run_check(c, False), kind, d)
         rec['obs3'] = [observe(sd) for sd in sds]
         reads = {}
-        for k, v in ITEMS:
+        for k, v in rec['items']:
             try:
                 reads[k] = ('val', c[k])
             except KeyError:
@@ -309,7 +398,7 @@ def execute(kind, template, damage, variant, workdir):
 
 def case_payload(rec, extra=None):
     p = {'check': 'damage', 'kind': rec['kind'], 'damage': rec['damage'], 'variant': rec['variant'], 'applied': rec['log'],
-         'plain': wkeys(rec['plain']), 'fix': wkeys(rec['fix']), 'second': wkeys(rec['second'])}
+         'plain': wkeys(rec['plain'])[:40], 'fix': wkeys(rec['fix'])[:40], 'second': wkeys(rec['second'])[:40]}
     if extra:
         p.update(extra)
     return p
@@ -392,28 +481,35 @@ def monitor(rec):
     if rec['obs2'] != rec['obs3']:
         v('plain_check_changed_state', 'the second (plain) check() changed the directory')
     # items
-    damaged = set(TARGET[k] for k in rec['damage'] if k in TARGET)
-    orig = dict(ITEMS)
+    targets = rec['targets']
+    damaged = set(targets)
+    orig = dict(rec['items'])
+    seen_sigs = set()
     for k, (st, got) in rec['reads'].items():
         if k in damaged:
-            if k == TARGET['delete'] and st != 'missing':
+            if targets[k] == 'delete' and st != 'missing' and 'lost' not in seen_sigs:
+                seen_sigs.add('lost')
                 v('lost_file_item_remains', 'item %r whose file was deleted is still there after the repair: %s' % (k, st), key=k)
-            if k != TARGET['delete'] and st == 'raised':
-                v('item_unreadable', 'item %r cannot be read after the repair (%s)' % (k, got), key=k)
+            if targets[k] != 'delete' and st == 'raised' and 'unreadable' not in seen_sigs:
+                seen_sigs.add('unreadable')
+                v('item_unreadable', 'item %r whose file was %sd cannot be read after the repair (%s %s)' % (k, targets[k], st, got), key=k)
             continue
-        if st != 'val' or not (type(got) is type(orig[k]) and got == orig[k]):
-            v('undamaged_item_changed', 'undamaged item %r reads %s %r after the repair' % (k, st, got), key=k)
+        if (st != 'val' or not (type(got) is type(orig[k]) and got == orig[k])) and 'changed' not in seen_sigs:
+            seen_sigs.add('changed')
+            v('undamaged_item_changed', 'undamaged item %r reads %s %r after the repair' % (k, st, str(got)[:60]), key=k)
     # rows and files of undamaged items untouched
     def rows_of(obs):
         return {(i, r[1]): r for i, o in enumerate(obs) for r in o['rows']}
     r0, r2 = rows_of(rec['obs0']), rows_of(rec['obs2'])
     for (i, key), r in r0.items():
-        if key in damaged:
+        if item_of_row(rec['kind'], key) in damaged:
             continue
-        if r2.get((i, key)) != r:
+        if r2.get((i, key)) != r and 'row' not in seen_sigs:
+            seen_sigs.add('row')
             v('undamaged_row_changed', 'row of undamaged item %r changed' % (key,), key=repr(key))
         fn = r[10]
-        if fn is not None and rec['obs2'][i]['files'].get(fn) != rec['obs0'][i]['files'].get(fn):
+        if fn is not None and rec['obs2'][i]['files'].get(fn) != rec['obs0'][i]['files'].get(fn) and 'file' not in seen_sigs:
+            seen_sigs.add('file')
             v('undamaged_file_changed', 'file of undamaged item %r changed' % (key,), key=repr(key))
     for (i, key) in r2:
         if (i, key) not in r0:
@@ -565,6 +661,56 @@ def all_cases(ctx, thorough):
                 cases.append(('fanout' if kind == 'cache' else 'cache', sub, va))
             else:
                 cases.append((kind, sub, dict({k: rng.choice(['new', 'old']) for k in placed}, sign=rng.choice(['up', 'down']))))
+    return cases + sparse_cases(ctx, thorough) + large_cases(ctx, thorough)
+
+
+STRAY = ['add0', 'add1', 'add2', 'dir1', 'dir2']
+
+
+def sparse_cases(ctx, thorough):
+    """FanoutCache / DjangoCache-backed caches in which some shards hold no item: the damage sits in such a shard
+    (home='empty') or in a shard with items; a counter zeroed out of band (every cache kind)."""
+    rng = ctx.rng
+    va = {'add1': 'new', 'add2': 'new', 'dir2': 'new', 'sign': 'up'}
+    cases = []
+    for kind in ('fanout8', 'django'):
+        e = dict(va, home='empty')
+        for k in STRAY + ['count', 'size']:
+            cases.append((kind, (k,), dict(e, home_index=len(cases))))
+        cases.append((kind, tuple(STRAY + ['count', 'size']), e))
+        cases.append((kind, tuple(KINDS), dict(e, home_index=1)))                # file damage where the items are, the rest in an empty shard
+        cases.append((kind, tuple(KINDS), dict(va, add1='old', add2='old', dir2='old', sign='down')))     # everything in a shard with items
+        cases.append((kind, (), va))
+        for _ in range(4 if not thorough else 60):
+            sub = tuple(k for k in KINDS if rng.random() < 0.4)
+            cases.append((kind, sub, dict({k: rng.choice(['new', 'old']) for k in ('add1', 'add2', 'dir2')}, sign=rng.choice(['up', 'down']),
+                                          **({'home': 'empty', 'home_index': rng.randrange(8)} if rng.random() < 0.6 else {}))))
+    for kind in ('cache', 'fanout', 'fanout8', 'django'):
+        cases.append((kind, ('count',), dict(va, sign='zero')))
+        cases.append((kind, ('count', 'size', 'delete', 'add2'), dict(va, sign='zero')))
+    return cases
+
+
+def large_cases(ctx, thorough):
+    """more than one page of 100 file-backed rows per cache / shard, value files deleted, truncated and extended in early and
+    late pages (explicit targets), optionally with added files / directories / counter changes"""
+    rng = ctx.rng
+    cases = []
+    plan = [('cache:150', 1), ('cache:150', 4), ('cache:230', 3), ('cache:230', 12), ('fanout:260', 3), ('fanout:260', 10)]
+    if thorough:
+        plan = plan * 5 + [('cache:330', 6), ('cache:101', 1), ('cache:201', 2)]
+    for kind, ndel in plan:
+        names = [k for k, v in kind_items(kind) if k.startswith('L') and k != anchor_key(kind)]
+        first_page = names[:100] if kind_base(kind) == 'cache' else names[:120]
+        picks = rng.sample(first_page, min(ndel, len(first_page)))          # deletions in early pages
+        rest = [k for k in names if k not in picks]
+        others = rng.sample(rest, 6)
+        targets = [['delete', k] for k in picks] + [['delete', others[0]]] + [['truncate', k] for k in others[1:3]] + [['extend', k] for k in others[3:5]]
+        if len(cases) % 2:
+            targets = [t for t in targets if t[0] == 'delete']
+        sub = tuple(k for k in STRAY + ['count', 'size'] if rng.random() < 0.25)
+        cases.append((kind, sub, {'add1': rng.choice(['new', 'old']), 'add2': rng.choice(['new', 'old']), 'dir2': 'new', 'sign': 'up',
+                                  'targets': sorted(targets, key=lambda t: t[1])}))
     return cases
 
 
@@ -606,11 +752,19 @@ def run(ctx, big=False, model=True):
                 'kinds {delete/truncate/extend a value file, add a file at depth 0/1/2, add an empty directory at depth 1/2, bump Settings.count/size up or down}, '
                 'added entries placed in fresh or in existing directories; thorough: all 1024 subsets x both placements x both cache kinds; quick: the '
                 'empty set, the full set, every single kind (both placements, both cache kinds) and a seeded sample of 70 subsets.  Per case: plain '
-                'check, check(fix=True), second check, all items read.  non-trivial = at least one damage kind; distinct = distinct (cache kind, '
-                'subset, placement).')
+                'check, check(fix=True), second check, all items read.  Plus directed families: FanoutCache with 8 shards and the FanoutCache behind a '
+                'DjangoCache (SHARDS=8) in which some shards hold no item, with the added files / directories / counter changes placed in a shard '
+                'WITHOUT items (each kind alone, all together, random subsets) or in one with items; Settings.count / size zeroed out of band on every '
+                'cache kind; caches with 150 / 230 (Cache) and 260 (FanoutCache, 2 shards) file-backed items, i.e. more than one page of 100 rows, with '
+                '1-12 value files deleted in early pages and files deleted / truncated / extended in later pages, alone or with other damage kinds.  '
+                'non-trivial = at least one damage kind; distinct = distinct (cache kind, subset, placement, damaged items).')
     check_witness(res)          # first, so that a regression of D16 is reported with this witness
-    tmpl = {k: build_template(ctx, k) for k in ('cache', 'fanout')}
     cases = all_cases(ctx, thorough)
+    tmpl = {k: build_template(ctx, k) for k in sorted(set(c[0] for c in cases))}
+    empty_shards = {}
+    for k, t in tmpl.items():
+        if kind_shards(k):
+            empty_shards[k] = sum(1 for sd in shard_dirs(k, t) if not observe(sd)['rows'])
     recs = []
     hist_kind = {k: 0 for k in KINDS}
     hist_n = {}
@@ -629,7 +783,8 @@ def run(ctx, big=False, model=True):
             shutil.rmtree(wd, ignore_errors=True)
             continue
         shutil.rmtree(wd, ignore_errors=True)
-        res.count(['damage', kind, list(sub), sorted((k, v) for k, v in var.items() if k in sub or (k == 'sign' and ('count' in sub or 'size' in sub)))], nontrivial=bool(sub))
+        res.count(['damage', kind, list(sub), sorted((k, v) for k, v in var.items() if k in sub or (k == 'sign' and ('count' in sub or 'size' in sub))
+                                                     or k in ('home', 'home_index', 'targets'))], nontrivial=bool(sub) or bool(var.get('targets')))
         for k in sub:
             hist_kind[k] += 1
         hist_n[len(sub)] = hist_n.get(len(sub), 0) + 1
@@ -646,7 +801,10 @@ def run(ctx, big=False, model=True):
         correspondence(ctx, res, recs)
     res.extra.update({'damage_kind_histogram': hist_kind, 'cases_by_number_of_damage_kinds': {str(k): v for k, v in sorted(hist_n.items())},
                       'warnings_of_fixing_run_by_kind': hist_warn, 'cases_showing_empty_parent_after_fix': n_d16,
-                      'cache_kinds': {'cache': sum(1 for c in cases if c[0] == 'cache'), 'fanout': sum(1 for c in cases if c[0] == 'fanout')},
+                      'cache_kinds': {k: sum(1 for c in cases if c[0] == k) for k in sorted(tmpl)},
+                      'shards_without_items_in_template': empty_shards,
+                      'cases_with_damage_in_a_shard_without_items': sum(1 for c in cases if c[2].get('home') == 'empty'),
+                      'cases_with_more_than_100_file_rows': sum(1 for c in cases if ':' in c[0]),
                       'exhaustive': bool(thorough)})
     return res
 
